@@ -34,7 +34,8 @@ def install():
         return counted
 
     for name in _WRAPPED:
-        setattr(LatexTokenReader, name, wrap(getattr(LatexTokenReader, name)))
+        if hasattr(LatexTokenReader, name):     # (a renamed primitive simply is not counted)
+            setattr(LatexTokenReader, name, wrap(getattr(LatexTokenReader, name)))
     _state['installed'] = True
 
 
